@@ -277,5 +277,32 @@ def run(ctx):
                 ctx.finding(f'R6/{key}/missing-{miss}', f'{f.nice} builds an index key without {miss} while its sibling sites apply it', f.loc)
     ctx.floor('C15.R6 index key-building sites', n6, 9)
 
+    # ---------------------------------------------------------------- R7 table-map lookups agree on the key normalisation
+    ctx.rule('C15.R7', 'tables are stored under "<schema>.<NAME>" (Database::create_table); every function of storage::database that looks a '
+             'table up in the HashMap<String, Table> by a name it was given contains the schema-qualification idiom (a "{}.{}" format), '
+             'as its siblings do — otherwise the lookup silently misses and the operation (e.g. an index rebuild) is skipped')
+    from ..engine.fmt import format_sites
+    n7 = 0
+    for f in prog.fns.values():
+        if not f.nice.startswith('vibesql_storage::database::') or f.is_closure() or f.dk == 'Promoted':
+            continue
+        look = [t for _, t in f.calls() if (callee_name(t) or '').startswith('std::collections::hash::map::HashMap::<K, V, S, A>::')
+                and (callee_name(t) or '').rsplit('::', 1)[1] in ('get', 'get_mut', 'remove', 'contains_key')
+                and (t['f'].get('ga') or '').startswith('alloc::string::String, vibesql_storage::table::Table')]
+        if not look:
+            continue
+        n7 += 1
+        tmpl = set()
+        for g_ in [f] + prog.children(f):
+            for site in format_sites(prog, g_):
+                if site['text']:
+                    tmpl.add(site['text'])
+        ok = '{}.{}' in tmpl
+        ctx.instance(f'R7/{f.nice}', {'rule': 'C15.R7', 'fn': f.nice, 'loc': f.loc, 'lookups': len(look), 'qualifies': ok})
+        if not ok:
+            ctx.finding(f'R7/{f.nice}', f'{f.nice} looks the table up by the raw name only (its siblings fall back to the schema-qualified key '
+                        f'under which tables are stored): the lookup misses and the operation is skipped', f.loc)
+    ctx.floor('C15.R7 functions that look tables up by name', n7, 7)
+
     ctx.assumptions.append('a `for` loop entered after the mutation iterates at least once (collect-then-apply idiom)')
     ctx.assumptions.append('the maintenance calls compute correct keys and positions (value-level; not decided)')
